@@ -245,6 +245,33 @@ def commits_into_dropped_tables(ctx, prog):
             if decides:
                 for f in inner_fields(c.args[0]['pl']['l'], body=body):
                     out.setdefault(f, []).append(c.bb)
+        # the test as the predicate of an iterator adaptor: `ops.iter().filter_map(..).find(|t| inner.dropped_tables.contains(t))`, whose
+        # result decides in `body`
+        for ch in prog.group(body.root):
+            if ch.name == body.name or not ch.name.startswith(body.name + '::'):
+                continue
+            inside = [c for c in ch.calls if c.args and c.args[0]['k'] != 'const' and re.search(r'::(contains|contains_key)$', c.fn or '')
+                      and inner_fields(c.args[0]['pl']['l'], depth=8, body=ch)]
+            if not inside:
+                continue
+            cl = {st['lhs']['l'] for _, st in body.stmts() if st['s'] == 'assign' and st['rv'].get('rv') == 'agg' and st['rv'].get('def') == ch.name}
+            for a_ in body.calls:
+                if not re.search(r'Iterator::(find|any|all|position|find_map)$', a_.fn or '') or any(body.reaches(x, a_.bb) for x in sinks):
+                    continue
+                if not any(x['k'] != 'const' and cl & origin_locals(body, x['pl']['l'], depth=3) for x in a_.args[1:]):
+                    continue
+                for i, bl in enumerate(body.blocks):
+                    t = bl['term']
+                    if t['k'] == 'switch' and not bl['cleanup'] and t['discr']['k'] != 'const' \
+                            and a_.dest['l'] in origin_locals(body, t['discr']['pl']['l'], depth=4):
+                        outs = [tgt for _, tgt in t['targets']] + [t['otherwise']]
+                        refuse = [o for o in outs if body.reachable_from([o]) & errs_ and not any(body.reaches(o, x) for x in sinks)]
+                        go_on = [o for o in outs if any(body.reaches(o, x) for x in sinks)] if sinks else \
+                            [o for o in outs if body.reachable_from([o], avoid=errs_) & rets]
+                        if refuse and go_on:
+                            for c in inside:
+                                for f in inner_fields(c.args[0]['pl']['l'], depth=8, body=ch):
+                                    out.setdefault(f, []).append(a_.bb)
         return out
 
     def from_drop_entry(l, hops=2):
